@@ -95,6 +95,30 @@ func (t *StandardRoundTimer) background(ctx context.Context) {
 
 	var timerElapsed, cancelTimer chan struct{}
 
+	// startTimer services a request to start the (single) timer.
+	startTimer := func(req startTimerRequest) {
+		// We assume the timer is always stopped by the time we receive a valid start timer request.
+		// If the timer is stopped, then we are safe to reset.
+		timer.Reset(req.Dur)
+
+		timerElapsed = make(chan struct{})
+		cancelTimer = make(chan struct{})
+		// Local reference so the returned cancel function
+		// doesn't have a closure over the outer variable.
+		localCancel := cancelTimer
+		var cancelOnce sync.Once
+		// The caller should be blocking on the receive here,
+		// so we should be safe to do a blocking send.
+		req.Resp <- startTimerResponse{
+			Elapsed: timerElapsed,
+			Cancel: func() {
+				cancelOnce.Do(func() {
+					close(localCancel)
+				})
+			},
+		}
+	}
+
 	for {
 		// Wait for signal to start timer.
 		select {
@@ -102,29 +126,11 @@ func (t *StandardRoundTimer) background(ctx context.Context) {
 			return
 
 		case req := <-t.startTimerRequests:
-			// We assume the timer is always stopped by the time we receive a valid start timer request.
-			// If the timer is stopped, then we are safe to reset.
-			timer.Reset(req.Dur)
-
-			timerElapsed = make(chan struct{})
-			cancelTimer = make(chan struct{})
-			// Local reference so the returned cancel function
-			// doesn't have a closure over the outer variable.
-			localCancel := cancelTimer
-			var cancelOnce sync.Once
-			// The caller should be blocking on the receive here,
-			// so we should be safe to do a blocking send.
-			req.Resp <- startTimerResponse{
-				Elapsed: timerElapsed,
-				Cancel: func() {
-					cancelOnce.Do(func() {
-						close(localCancel)
-					})
-				},
-			}
+			startTimer(req)
 		}
 
 		// The timer is running.
+	RUNNING:
 		select {
 		case <-ctx.Done():
 			return
@@ -152,10 +158,30 @@ func (t *StandardRoundTimer) background(ctx context.Context) {
 			timerElapsed = nil
 			cancelTimer = nil
 
-		case <-t.startTimerRequests:
-			panic(errors.New(
-				"BUG: new timer requested before previous timer elapsed or was cancelled",
-			))
+		case req := <-t.startTimerRequests:
+			// The caller is allowed to cancel the running timer
+			// and immediately request a new one.
+			// In that case both this case and the cancel case are ready,
+			// and select picks one at random,
+			// so a new request is only a bug if the previous timer was not cancelled.
+			select {
+			case <-cancelTimer:
+				if !timer.Stop() {
+					select {
+					case <-timer.C:
+					case <-ctx.Done():
+						return
+					}
+				}
+
+				startTimer(req)
+				goto RUNNING
+
+			default:
+				panic(errors.New(
+					"BUG: new timer requested before previous timer elapsed or was cancelled",
+				))
+			}
 		}
 	}
 }
